@@ -10,7 +10,7 @@ import vlib, cases
 from ledger import vdrive
 
 MC = dict(Keys={"k1", "k2", "k3"}, Arity={1, 2})
-FAMILIES = ["benign", "stake", "deleg"]
+FAMILIES = ["benign", "stake", "deleg", "alleg", "eth"]
 NSIG = {"STAKE": 2, "UNSTAKE": 2, "WITHDRAW": 2, "PROP_VOTE": 2}
 
 
@@ -19,7 +19,7 @@ def run(ctx, replay):
     ctx.sany("TxAuth", "TxAuth_Trace")
     mc = ctx.tlc("TxAuth", "mc.cfg", name="txauth-mc", cfg_text=vlib.cfg_text("ASpec", MC, ["AdmittedIffAuthentic", "HonestAdmitted", "MutantsRejected"]))
     quick = ctx.quick()
-    n, blocks, per = (12, 10, 4) if quick else (80, 14, 6)
+    n, blocks, per = (8, 10, 4) if quick else (60, 14, 6)
     total = 0
     kinds = {}
     samples = []
